@@ -98,6 +98,37 @@ def t_sc_muladd(it, p):
     return [it.new_buffer(32, "s", False, [0] * 32), it.new_buffer(32, "a", True), it.new_buffer(32, "b", True), it.new_buffer(32, "c", True)]
 
 
+def t_sc_mul(it, p):
+    return [it.new_buffer(32, "s", False, [0] * 32), it.new_buffer(32, "a", True), it.new_buffer(32, "b", True)]
+
+
+def t_sc_invert(it, p):
+    return [it.new_buffer(32, "recip", False, [0] * 32), it.new_buffer(32, "s", True)]
+
+
+def t_core_scalar2(it, p):
+    return [it.new_buffer(32, "z", False, [0] * 32), it.new_buffer(32, "x", True), it.new_buffer(32, "y", True)]
+
+
+def t_core_scalar1(it, p):
+    return [it.new_buffer(32, "z", False, [0] * 32), it.new_buffer(p.get("inlen", 32), "x", True)]
+
+
+def t_ristretto_scalarmult(it, p):
+    # public point: the Ristretto255 generator encoding (RFC 9496); secret scalar
+    gen = bytes.fromhex("e2f2ae0a6abc4e71a884a961c500515f58e30b6aa582dd8db6a65945e08d2d76")
+    return [it.new_buffer(32, "q", False, [0] * 32), it.new_buffer(32, "n", True), it.new_buffer(32, "p", False, list(gen))]
+
+
+def t_ed25519_scalarmult(it, p):
+    base = bytes.fromhex("5866666666666666666666666666666666666666666666666666666666666666")
+    return [it.new_buffer(32, "q", False, [0] * 32), it.new_buffer(32, "n", True), it.new_buffer(32, "p", False, list(base))]
+
+
+def t_ristretto_base(it, p):
+    return [it.new_buffer(32, "q", False, [0] * 32), it.new_buffer(32, "n", True)]
+
+
 def t_ge_base(it, p):
     return [it.new_buffer(160, "h", False, [0] * 160), it.new_buffer(32, "a", True)]
 
@@ -217,6 +248,23 @@ TARGETS = [
          setup=t_aead_enc(16, 16, 32, "aegis128l_aesni_implementation"), params=[{"len": n, "adlen": a} for n, a in ((0, 0), (1, 5), (33, 32), (65, 65))]),
     dict(name="aegis256-aesni-encrypt", units=_aegis_units("aegis256"), entry="crypto_aead_aegis256_encrypt_detached",
          setup=t_aead_enc(32, 32, 32, "aegis256_aesni_implementation"), params=[{"len": n, "adlen": a} for n, a in ((0, 0), (1, 5), (17, 16), (33, 33))]),
+    dict(name="sc25519_mul", units=ED, entry="sc25519_mul", setup=t_sc_mul, params=[{}]),
+    dict(name="sc25519_invert", units=ED, entry="sc25519_invert", setup=t_sc_invert, params=[{}], heavy=True),
+    dict(name="core-ed25519-scalar-add", units=["crypto_core/ed25519/core_ed25519.c"] + ED, entry="crypto_core_ed25519_scalar_add", setup=t_core_scalar2, params=[{}]),
+    dict(name="core-ed25519-scalar-sub", units=["crypto_core/ed25519/core_ed25519.c"] + ED, entry="crypto_core_ed25519_scalar_sub", setup=t_core_scalar2, params=[{}]),
+    dict(name="core-ed25519-scalar-mul", units=["crypto_core/ed25519/core_ed25519.c"] + ED, entry="crypto_core_ed25519_scalar_mul", setup=t_core_scalar2, params=[{}]),
+    dict(name="core-ed25519-scalar-negate", units=["crypto_core/ed25519/core_ed25519.c"] + ED, entry="crypto_core_ed25519_scalar_negate", setup=t_core_scalar1, params=[{}]),
+    dict(name="core-ed25519-scalar-complement", units=["crypto_core/ed25519/core_ed25519.c"] + ED, entry="crypto_core_ed25519_scalar_complement", setup=t_core_scalar1, params=[{}]),
+    dict(name="core-ed25519-scalar-reduce", units=["crypto_core/ed25519/core_ed25519.c"] + ED, entry="crypto_core_ed25519_scalar_reduce", setup=t_core_scalar1, params=[{"inlen": 64}]),
+    dict(name="ristretto255-scalarmult", units=["crypto_scalarmult/ristretto255/ref10/scalarmult_ristretto255_ref10.c"] + ED,
+         entry="crypto_scalarmult_ristretto255", setup=t_ristretto_scalarmult, params=[{}], heavy=True),
+    dict(name="ristretto255-scalarmult-base", units=["crypto_scalarmult/ristretto255/ref10/scalarmult_ristretto255_ref10.c"] + ED,
+         entry="crypto_scalarmult_ristretto255_base", setup=t_ristretto_base, params=[{}], heavy=True),
+    dict(name="ed25519-scalarmult-noclamp", units=["crypto_scalarmult/ed25519/ref10/scalarmult_ed25519_ref10.c"] + ED,
+         entry="crypto_scalarmult_ed25519_noclamp", setup=t_ed25519_scalarmult, params=[{}], heavy=True,
+         declassify=["_crypto_scalarmult_ed25519"]),     # the identity-result / zero-scalar error status is a public result
+    dict(name="ed25519-scalarmult-clamp", units=["crypto_scalarmult/ed25519/ref10/scalarmult_ed25519_ref10.c"] + ED,
+         entry="crypto_scalarmult_ed25519", setup=t_ed25519_scalarmult, params=[{}], heavy=True, declassify=["_crypto_scalarmult_ed25519"]),
     dict(name="ed25519-seed-keypair", units=["crypto_sign/ed25519/ref10/keypair.c", "crypto_hash/sha512/cp/hash_sha512_cp.c"] + ED,
          entry="crypto_sign_ed25519_seed_keypair", setup=t_seed_keypair, params=[{}], heavy=True),
     dict(name="ed25519-sign", units=["crypto_sign/ed25519/ref10/sign.c", "crypto_hash/sha512/cp/hash_sha512_cp.c"] + ED,
@@ -243,6 +291,8 @@ def run_one(tname, pidx, workroot, opaque_mul=True):
         mod = ir.parse_module(open(ll).read())
         it = interp.Interp(mod, _z3(), opaque_mul=opaque_mul and t.get("heavy", False))
         args = t["setup"](it, p)
+        for f in t.get("declassify", ()):
+            it.declassified.add(_name(it, f))
         entry = _name(it, t["entry"])
         res["functions"] = len(mod.functions)
         it.call(entry, args)
